@@ -602,11 +602,22 @@ RULE_ADDENDA_5 = {
     'C15': ' A third of the cases reduce a chain holding a factory result as one item; a quarter build rotation products inside a jit whose arguments are the angle arrays.',
     'C17': ' One coverage case in three uses a raster sampling (co-latitudes (n,1) against longitudes (1,m)).',
     'C19': ' A quarter of the reduce events do arithmetic on the inverse instead (scaling, negation, difference).',
+    'C01': ' Near misses include two different ravels that coincide on the first leaf only.',
+    'C02': ' Shortcuts include the inverse of A next to an already built composition B @ A / A @ B.',
+    'C04': ' One case in fifteen is an einsum operator with a leading batch letter and square blocks (or its transpose), one in fifteen an operator on a pytree holding a unit leaf before other leaves.',
+    'C07': ' Patterns include selections written with an ellipsis and triples of block-diagonal operators (residues are also looked for inside the merged block-wise products).',
+    'C10': ' Chains include legal row-times-column products whose two sides nest their containers differently.',
+    'C14': ' One string in seven is rewritten with an upper-case label.',
+    'C16': ' Refusing legal inputs when building the projection or the acquisition is a violation.',
+    'C20': ' Tree helpers include uniform_like with non-zero lower bounds on 64-draw leaves and multi-axis indexing of Stokes containers.',
 }
 for _p, _t in RULE_ADDENDA.items():
     PROPS[_p]['rule'] = PROPS[_p]['rule'] + _t + RULE_ADDENDA_4.get(_p, '') + RULE_ADDENDA_5.get(_p, '')
 for _p, _t in RULE_ADDENDA_4.items():
     if _p not in RULE_ADDENDA:
+        PROPS[_p]['rule'] = PROPS[_p]['rule'] + _t + RULE_ADDENDA_5.get(_p, '')
+for _p, _t in RULE_ADDENDA_5.items():
+    if _p not in RULE_ADDENDA and _p not in RULE_ADDENDA_4:
         PROPS[_p]['rule'] = PROPS[_p]['rule'] + _t
 
 NOT_APPLICABLE: dict[str, str] = {}
